@@ -1,16 +1,34 @@
-"""C02 - Settings are decoded exactly and all views agree (structural part)."""
+"""C02 - Settings are decoded exactly and all views agree (structural part).
+
+The rules about `BeaconConfig.settings_map` and the four cached views are phrased over *paths*: `_Exec` executes a
+function (or a loop body) symbolically, one control-flow path at a time.  Every local is replaced by the expression
+that defines it on that path (so temporaries, renamed locals, if/else vs early return, result variables of extracted
+helpers and `x if c else y` are invisible), `getattr/setattr(self, "<const>")` are attribute reads/writes, helpers that
+the normaliser could not inline (e.g. because of `**kwargs`) are entered with their arguments bound, and every branch
+decision is recorded as a canonical *fact* (`x == C` / `x != C` / `not ...` / mirrored comparisons / `in (..)` all map
+to the same key; members of the C-defined enums and plain integers are the same constant).  A rule then asks, for a
+*scenario* of the property (e.g. "parse or pretty is on and the record is TYPE_SHORT"), what every path that is
+consistent with the scenario stores - and compares that term with what the property demands.
+
+The rules about `iter_settings` are phrased on the CFG (dominance / reachability) with the same canonical facts taken
+from the branch edges that dominate a site, and locate their subjects by role (the stream is the receiver of the
+2-byte peek, the setting is the result of the `Setting(...)` struct parse, ...).
+
+Verdicts: the located term/site satisfies the condition -> discharged; it is located and differs -> violated; the code
+was reshaped into something the path executor / locator does not model -> undecided.
+"""
 
 from __future__ import annotations
 
 import ast
+import copy
 import re
 
 from csverif.astutil import (
-    assignments_to, body_walk, compare_parts, conjuncts, const_eval, dotted, fn_calls, is_const, kwarg, NotConst,
-    param_defaults, params, src, statements, strip_cast,
+    bind_args, body_walk, const_eval, dotted, fn_calls, is_const, is_none, NotConst, param_defaults, params,
+    src, statements,
 )
-from csverif.cfg import ENTRY, EXIT
-from csverif.q import FuncView, calls_to, dominating_conditions, guarded_by, inline, origin
+from csverif.q import FuncView, dominating_conditions, inline, origin
 
 VIEWS = {
     "raw_settings": ("name", False),
@@ -19,33 +37,597 @@ VIEWS = {
     "settings_by_index": ("const", True),
 }
 
+_NOVAL = object()
+_ORDER_KEEPING = ("tuple", "list", "iter")
+_ORDER_CHANGING = ("sorted", "reversed", "set", "frozenset")
+_REORDER_METHODS = ("sort", "reverse", "move_to_end", "popitem", "pop", "clear", "update", "setdefault", "__delitem__")
+
 
 def _c(node):
     try:
         return const_eval(node) if node is not None else None
-    except NotConst:
+    except (NotConst, TypeError):
         return None
 
 
-def _type_test(test, member):
-    """True if test contains the conjunct `<x>.type == SettingsType.<member>`."""
-    for cj in conjuncts(test):
-        for l, op, r in compare_parts(cj):
-            if isinstance(op, ast.Eq):
-                for a, b in ((l, r), (r, l)):
-                    if (dotted(a) or "").endswith(".type") and dotted(b) == f"SettingsType.{member}":
-                        return True
-    return False
+def _expr(text):
+    return ast.parse(text, mode="eval").body
 
 
+# ============================================================================================ canonical facts
+def _enums(ctx):
+    """name -> {member: value} of every enum in the C definitions of beacon.py"""
+    hit = getattr(ctx, "_c02_enums", None)
+    if hit is None:
+        hit = {}
+        for cd in ctx.cdefs("beacon").values():
+            for name, en in cd.enums.items():
+                hit.setdefault(name, en.by_name())
+        try:
+            ctx._c02_enums = hit
+        except Exception:
+            pass
+    return hit
+
+
+def _cv(ctx, e):
+    """Canonical constant of an expression: (typename, value) for literals and for members of the C-defined enums
+    (a member equals its integer value), else None."""
+    try:
+        v = const_eval(e)
+    except Exception:
+        v = _NOVAL
+    if v is not _NOVAL:
+        if isinstance(v, bool):
+            return ("bool", v)
+        if isinstance(v, (int, bytes, str)):
+            return (type(v).__name__, v)
+        return None
+    d = dotted(e)
+    if d and "." in d:
+        en, mem = d.split(".")[-2:]
+        members = _enums(ctx).get(en)
+        if members is not None and mem in members:
+            return ("int", members[mem])
+    return None
+
+
+def _atom(ctx, t):
+    """(key, positive): the canonical key of an atomic test and whether the test asserts it or its negation."""
+    if isinstance(t, ast.Compare) and len(t.ops) == 1:
+        l, op, r = t.left, t.ops[0], t.comparators[0]
+        if isinstance(op, (ast.Is, ast.IsNot, ast.Eq, ast.NotEq)) and (is_none(r) or is_none(l)):
+            x = l if is_none(r) else r
+            return ("none", src(x)), isinstance(op, (ast.Is, ast.Eq))
+        if isinstance(op, (ast.Eq, ast.NotEq)):
+            cl, cr = _cv(ctx, l), _cv(ctx, r)
+            if cr is not None and cl is None:
+                return ("eq", src(l), cr), isinstance(op, ast.Eq)
+            if cl is not None and cr is None:
+                return ("eq", src(r), cl), isinstance(op, ast.Eq)
+            a, b = sorted((src(l), src(r)))
+            return ("t", f"{a} == {b}"), isinstance(op, ast.Eq)
+        if isinstance(op, ast.Lt):
+            return ("lt", src(l), src(r)), True
+        if isinstance(op, ast.GtE):
+            return ("lt", src(l), src(r)), False
+        if isinstance(op, ast.Gt):
+            return ("lt", src(r), src(l)), True
+        if isinstance(op, ast.LtE):
+            return ("lt", src(r), src(l)), False
+    return ("t", src(t)), True
+
+
+def _lookup(facts, key):
+    if key in facts:
+        return facts[key]
+    if key[0] == "eq":
+        for k, v in facts.items():
+            if v and k[0] == "eq" and k[1] == key[1] and k[2] != key[2]:
+                return False
+    if key[0] == "none" and facts.get(("t", key[1])) is True:
+        return False
+    if key[0] == "t" and facts.get(("none", key[1])) is True:
+        return False
+    return None
+
+
+def _split(ctx, t, facts, want):
+    """The fact sets (extensions of `facts`) under which test `t` evaluates to `want`; [] if impossible.
+    and/or short-circuit, `not`, `in (a, b)` and constants are decomposed; everything else is an atom."""
+    if isinstance(t, ast.UnaryOp) and isinstance(t.op, ast.Not):
+        return _split(ctx, t.operand, facts, not want)
+    if isinstance(t, ast.BoolOp):
+        if isinstance(t.op, ast.And) == want:
+            outs = [facts]
+            for v in t.values:
+                outs = [g for fc in outs for g in _split(ctx, v, fc, want)]
+            return outs
+        outs, prefix = [], [facts]
+        for v in t.values:
+            for fc in prefix:
+                outs.extend(_split(ctx, v, fc, want))
+            prefix = [g for fc in prefix for g in _split(ctx, v, fc, not want)]
+        return outs
+    if isinstance(t, ast.Compare) and len(t.ops) == 1 and isinstance(t.ops[0], (ast.In, ast.NotIn)) \
+            and isinstance(t.comparators[0], (ast.Tuple, ast.List, ast.Set)):
+        elts = t.comparators[0].elts
+        isin = isinstance(t.ops[0], ast.In)
+        if not elts:
+            return [facts] if want != isin else []
+        ors = ast.BoolOp(op=ast.Or(), values=[ast.Compare(left=t.left, ops=[ast.Eq()], comparators=[e]) for e in elts])
+        return _split(ctx, ors, facts, want == isin)
+    if isinstance(t, ast.Constant):
+        return [facts] if bool(t.value) == want else []
+    key, pos = _atom(ctx, t)
+    val = want == pos
+    cur = _lookup(facts, key)
+    if cur is None:
+        g = dict(facts)
+        g[key] = val
+        return [g]
+    return [facts] if cur == val else []
+
+
+def _consistent(ctx, facts, tests):
+    """Can the tests [(expr, want)] all hold together with `facts`?  (atoms the facts do not mention are free)"""
+    cur = [facts]
+    for t, w in tests:
+        cur = [g for fc in cur for g in _split(ctx, t, fc, w)]
+        if not cur:
+            return False
+    return True
+
+
+def _facts_at(ctx, f, node, stop=frozenset()):
+    """Canonical facts established by the branch edges that dominate node's statement."""
+    facts = {}
+    for _t, pol, e in dominating_conditions(ctx, f, node):
+        r = _split(ctx, inline(f.node, e, stop=stop), facts, pol)
+        if len(r) == 1:
+            facts = r[0]
+    return facts
+
+
+# ============================================================================================ path executor
+class _Unmodelled(Exception):
+    pass
+
+
+class _St:
+    """One path: locals (name -> term), attribute heap (dotted -> term), facts, stores, effect calls, outcome."""
+
+    def __init__(self):
+        self.env, self.heap, self.facts = {}, {}, {}
+        self.stores = []  # ("attr", dotted, term) | ("item", base term, key term, value term)
+        self.effects = []  # call terms evaluated for effect
+        self.ret = None
+        self.done = None  # None | "return" | "raise" | "break" | "continue"
+
+    def fork(self, facts=None):
+        o = _St()
+        o.env, o.heap = dict(self.env), dict(self.heap)
+        o.facts = dict(self.facts if facts is None else facts)
+        o.stores, o.effects = list(self.stores), list(self.effects)
+        o.ret, o.done = self.ret, self.done
+        return o
+
+
+class _Sub(ast.NodeTransformer):
+    def __init__(self, st):
+        self.st = st
+
+    def visit_Name(self, n):
+        if isinstance(n.ctx, ast.Load) and n.id in self.st.env:
+            return copy.deepcopy(self.st.env[n.id])
+        return n
+
+    def visit_Attribute(self, n):
+        d = dotted(n)
+        if d is not None and isinstance(n.ctx, ast.Load) and d in self.st.heap:
+            return copy.deepcopy(self.st.heap[d])
+        return self.generic_visit(n)
+
+    def visit_Lambda(self, n):
+        return n
+
+    def visit_NamedExpr(self, n):
+        v = self.visit(n.value)
+        self.st.env[n.target.id] = v
+        return copy.deepcopy(v)
+
+    def visit_Call(self, n):
+        n = self.generic_visit(n)
+        if dotted(n.func) == "getattr" and len(n.args) == 2 and not n.keywords and isinstance(n.args[1], ast.Constant) \
+                and isinstance(n.args[1].value, str) and n.args[1].value.isidentifier():
+            a = ast.Attribute(value=n.args[0], attr=n.args[1].value, ctx=ast.Load())
+            d = dotted(a)
+            if d is not None and d in self.st.heap:
+                return copy.deepcopy(self.st.heap[d])
+            return a
+        kws = []
+        for k in n.keywords:
+            if k.arg is None and isinstance(k.value, ast.Dict) and all(isinstance(x, ast.Constant) and isinstance(x.value, str) for x in k.value.keys):
+                kws.extend(ast.keyword(arg=x.value, value=v) for x, v in zip(k.value.keys, k.value.values))
+            else:
+                kws.append(k)
+        n.keywords = kws
+        args = []
+        for a in n.args:
+            if isinstance(a, ast.Starred) and isinstance(a.value, (ast.Tuple, ast.List)):
+                args.extend(a.value.elts)
+            else:
+                args.append(a)
+        n.args = args
+        return n
+
+
+def _assigned_in(stmts):
+    names, attrs = set(), set()
+    for s in stmts:
+        for n in ast.walk(s):
+            if isinstance(n, ast.Name) and isinstance(n.ctx, ast.Store):
+                names.add(n.id)
+            elif isinstance(n, ast.Attribute) and isinstance(n.ctx, ast.Store) and dotted(n):
+                attrs.add(dotted(n))
+    return names, attrs
+
+
+class _Exec:
+    MAXPATHS = 600
+
+    def __init__(self, ctx, f, capture_loops=False):
+        self.ctx, self.f = ctx, f
+        self.capture_loops = capture_loops
+        self.loops = []  # (loop stmt, state at loop entry with the loop-assigned names forgotten)
+        self.ntok = 0
+        self.depth = 0
+        base = _baseline().get(f.module.name, {})
+        self.baseline_funcs = set(base.get("functions", []))
+
+    # ---------------------------------------------------------------- terms
+    def term(self, e, st):
+        """e with every local / tracked attribute replaced by its value on this path.  `(x := v)` binds x when it is
+        evaluated unconditionally (not under and/or/if-expression/comprehension/lambda); otherwise not modelled."""
+        if any(isinstance(n, ast.NamedExpr) for n in ast.walk(e)):
+            def cond(n, under):
+                if isinstance(n, ast.NamedExpr) and under:
+                    raise _Unmodelled("conditionally evaluated assignment expression")
+                for name, ch in ast.iter_fields(n):
+                    for c in (ch if isinstance(ch, list) else [ch]):
+                        if isinstance(c, ast.AST):
+                            u = under or isinstance(n, (ast.IfExp, ast.Lambda, ast.ListComp, ast.SetComp, ast.DictComp, ast.GeneratorExp)) \
+                                or (isinstance(n, ast.BoolOp) and c is not n.values[0])
+                            cond(c, u)
+            cond(e, False)
+        return _Sub(st).visit(copy.deepcopy(e))
+
+    def tag(self, t):
+        if not hasattr(t, "_tok"):
+            self.ntok += 1
+            t._tok = self.ntok
+        return t
+
+    def helper_of(self, call, st):
+        """Func of a package helper that is *not* part of the pinned tree (an extracted helper the normaliser left in
+        place) when `call` calls it as `self.h(..)` or `h(..)`."""
+        d = dotted(call.func)
+        if d is None:
+            return None
+        mod = self.f.module
+        if d.startswith("self.") and d.count(".") == 1 and self.f.cls:
+            q = f"{self.f.cls}.{d.split('.')[1]}"
+        elif "." not in d and d not in st.env and d not in params(self.f.node):
+            q = d
+        else:
+            return None
+        h = mod.funcs.get(q)
+        if h is None or q in self.baseline_funcs or not isinstance(h.node, (ast.FunctionDef,)):
+            return None
+        if h.node.decorator_list or any(isinstance(n, (ast.Yield, ast.YieldFrom)) for n in body_walk(h.node)):
+            return None
+        return h
+
+    def values(self, e, st):
+        """[(state, term)] of evaluating expression e as the value of an assignment/return (forks on `a if c else b`,
+        enters extracted helpers)."""
+        if isinstance(e, ast.IfExp):
+            t = self.term(e.test, st)
+            out = []
+            for want, sub in ((True, e.body), (False, e.orelse)):
+                for g in _split(self.ctx, t, st.facts, want):
+                    out.extend(self.values(sub, st.fork(g)))
+            return out
+        if isinstance(e, ast.Call):
+            h = self.helper_of(e, st)
+            if h is not None:
+                return self.call(h, e, st)
+        return [(st, self.tag(self.term(e, st)))]
+
+    def call(self, h, call, st):
+        if self.depth >= 3:
+            raise _Unmodelled("helper nesting too deep")
+        ct = self.term(call, st)
+        if any(isinstance(a, ast.Starred) for a in ct.args) or any(k.arg is None for k in ct.keywords):
+            raise _Unmodelled(f"call of {h.qualname} with arguments that cannot be bound")
+        a = h.node.args
+        pos = [x.arg for x in a.posonlyargs + a.args]
+        if h.cls:
+            if not (dotted(call.func) or "").startswith("self.") or not pos:
+                raise _Unmodelled(f"method {h.qualname} not called on self")
+            pos = pos[1:]
+        kwonly = [x.arg for x in a.kwonlyargs]
+        env = {}
+        extra = list(ct.args[len(pos):])
+        for p, v in zip(pos, ct.args):
+            env[p] = v
+        if extra:
+            if a.vararg is None:
+                raise _Unmodelled("too many positional arguments")
+        if a.vararg is not None:
+            env[a.vararg.arg] = ast.Tuple(elts=extra, ctx=ast.Load())
+        rest_k, rest_v = [], []
+        for k in ct.keywords:
+            if k.arg in pos or k.arg in kwonly:
+                env[k.arg] = k.value
+            elif a.kwarg is not None:
+                rest_k.append(ast.Constant(value=k.arg))
+                rest_v.append(k.value)
+            else:
+                raise _Unmodelled(f"unexpected keyword {k.arg}")
+        if a.kwarg is not None:
+            env[a.kwarg.arg] = ast.Dict(keys=rest_k, values=rest_v)
+        dfl = param_defaults(h.node)
+        for p in pos + kwonly:
+            if p not in env:
+                if p not in dfl:
+                    raise _Unmodelled(f"parameter {p} of {h.qualname} unbound")
+                env[p] = copy.deepcopy(dfl[p])
+        saved = st.env
+        cs = st.fork()
+        cs.env = env
+        self.depth += 1
+        try:
+            outs = self.run(h.node.body, cs)
+        finally:
+            self.depth -= 1
+        res = []
+        for o in outs:
+            if o.done in ("break", "continue"):
+                raise _Unmodelled("loop control leaves a helper")
+            o.env = dict(saved)
+            if o.done == "raise":
+                res.append((o, None))
+                continue
+            ret = o.ret if o.done == "return" and o.ret is not None else ast.Constant(value=None)
+            o.ret, o.done = None, None
+            res.append((o, ret))
+        return res
+
+    # ---------------------------------------------------------------- statements
+    def run(self, stmts, st):
+        states = [st]
+        for s in stmts:
+            nxt = []
+            for x in states:
+                if x.done:
+                    nxt.append(x)
+                else:
+                    nxt.extend(self.step(s, x))
+            states = nxt
+            if len(states) > self.MAXPATHS:
+                raise _Unmodelled("too many paths")
+        return states
+
+    def bind(self, tgt, t, st):
+        if isinstance(tgt, ast.Name):
+            st.env[tgt.id] = t
+        elif isinstance(tgt, ast.Attribute) and dotted(tgt) is not None:
+            base = self.term(tgt.value, st)
+            d = dotted(ast.Attribute(value=base, attr=tgt.attr, ctx=ast.Load()))
+            if d is None:
+                raise _Unmodelled("store into an attribute of a computed object")
+            st.heap[d] = t
+            st.stores.append(("attr", d, t))
+        elif isinstance(tgt, ast.Subscript):
+            st.stores.append(("item", self.term(tgt.value, st), self.term(tgt.slice, st), t))
+        elif isinstance(tgt, (ast.Tuple, ast.List)) and isinstance(t, (ast.Tuple, ast.List)) and len(t.elts) == len(tgt.elts) \
+                and not any(isinstance(x, ast.Starred) for x in list(tgt.elts) + list(t.elts)):
+            for a, b in zip(tgt.elts, t.elts):
+                self.bind(a, b, st)
+        else:
+            raise _Unmodelled("unpacking assignment")
+
+    def branch(self, test, st, body, orelse):
+        t = self.term(test, st)
+        out = []
+        for want, blk in ((True, body), (False, orelse)):
+            for g in _split(self.ctx, t, st.facts, want):
+                out.extend(self.run(blk, st.fork(g)))
+        return out
+
+    def step(self, s, st):
+        if isinstance(s, (ast.Pass, ast.Global, ast.Nonlocal, ast.Import, ast.ImportFrom)):
+            return [st]
+        if isinstance(s, ast.Expr):
+            v = s.value
+            if isinstance(v, ast.Constant):
+                return [st]
+            if isinstance(v, ast.Call):
+                if dotted(v.func) == "setattr" and len(v.args) == 3 and not v.keywords:
+                    obj, name = self.term(v.args[0], st), self.term(v.args[1], st)
+                    if dotted(obj) is None or not (isinstance(name, ast.Constant) and isinstance(name.value, str)):
+                        raise _Unmodelled("setattr with a computed attribute name")
+                    out = []
+                    for s2, t in self.values(v.args[2], st):
+                        if not s2.done:
+                            d = f"{dotted(obj)}.{name.value}"
+                            s2.heap[d] = t
+                            s2.stores.append(("attr", d, t))
+                        out.append(s2)
+                    return out
+                h = self.helper_of(v, st)
+                if h is not None:
+                    return [s2 for s2, _t in self.call(h, v, st)]
+                st.effects.append(self.term(v, st))
+                return [st]
+            raise _Unmodelled(f"expression statement {src(v)[:40]}")
+        if isinstance(s, (ast.Assign, ast.AnnAssign)):
+            if s.value is None:
+                return [st]
+            out = []
+            for s2, t in self.values(s.value, st):
+                if not s2.done:
+                    for tgt in (s.targets if isinstance(s, ast.Assign) else [s.target]):
+                        self.bind(tgt, t, s2)
+                out.append(s2)
+            return out
+        if isinstance(s, ast.AugAssign):
+            cur = copy.deepcopy(s.target)
+            for n in ast.walk(cur):
+                if hasattr(n, "ctx") and isinstance(n.ctx, ast.Store):
+                    n.ctx = ast.Load()
+            cur = self.term(cur, st)
+            t = self.tag(ast.BinOp(left=cur, op=s.op, right=self.term(s.value, st)))
+            self.bind(s.target, t, st)
+            return [st]
+        if isinstance(s, ast.If):
+            return self.branch(s.test, st, s.body, s.orelse)
+        if isinstance(s, ast.Assert):
+            t = self.term(s.test, st)
+            return [st.fork(g) for g in _split(self.ctx, t, st.facts, True)]
+        if isinstance(s, ast.Return):
+            if s.value is None:
+                st.ret, st.done = ast.Constant(value=None), "return"
+                return [st]
+            out = []
+            for s2, t in self.values(s.value, st):
+                if not s2.done:
+                    s2.ret, s2.done = t, "return"
+                out.append(s2)
+            return out
+        if isinstance(s, ast.Raise):
+            st.done = "raise"
+            return [st]
+        if isinstance(s, ast.Break):
+            st.done = "break"
+            return [st]
+        if isinstance(s, ast.Continue):
+            st.done = "continue"
+            return [st]
+        if isinstance(s, (ast.For, ast.While)) and self.capture_loops and self.depth == 0:
+            names, attrs = _assigned_in([s])
+            for n in names:
+                st.env.pop(n, None)
+            for d in attrs:
+                st.heap.pop(d, None)
+            self.loops.append((s, st.fork()))
+            return [st]
+        raise _Unmodelled(f"{type(s).__name__} statement")
+
+
+def _baseline():
+    from csverif.normalise import baseline
+
+    return baseline()
+
+
+class _Agg:
+    """Aggregate per-path verdicts of one obligation: any violated -> violated, else any undecided -> undecided."""
+
+    def __init__(self):
+        self.bad, self.unk, self.n = [], [], 0
+
+    def add(self, verdict, why=""):
+        self.n += 1
+        if verdict is False and why not in self.bad:
+            self.bad.append(why)
+        elif verdict is None and why not in self.unk:
+            self.unk.append(why)
+
+    def emit(self, ctx, rule, kind, where, text, ok_detail, node=None, none_detail="no path of the code corresponds to this case"):
+        if self.bad:
+            ctx.ob(rule, kind, where, text, False, "; ".join(self.bad[:4]), node)
+        elif self.unk:
+            ctx.undecided(rule, kind, where, text, "; ".join(self.unk[:4]), node)
+        elif not self.n:
+            ctx.undecided(rule, kind, where, text, none_detail, node)
+        else:
+            ctx.ob(rule, kind, where, text, True, ok_detail, node)
+
+
+def _external(ctx, f, e):
+    """External dotted name a Name/Attribute expression resolves to through the module's imports ('types.MappingProxyType')."""
+    d = dotted(e)
+    if d is None:
+        return None
+    s = ctx.rs.lookup_dotted(f.module.name, d)
+    if s is not None and s.kind == "external":
+        return s.name
+    return d if s is None else None
+
+
+def _opaque(ctx, f, t, locals_, ex=None):
+    """Why the value of term t is not fully known to the rule (None if it is built from understood parts only)."""
+    for n in ast.walk(t):
+        if isinstance(n, ast.Name) and n.id in locals_:
+            return f"local `{n.id}` carries a value the path executor does not track"
+        if isinstance(n, (ast.IfExp, ast.Lambda, ast.ListComp, ast.SetComp, ast.DictComp, ast.GeneratorExp, ast.NamedExpr, ast.Starred, ast.Await)):
+            return f"`{src(n)[:50]}` is not modelled"
+        if isinstance(n, ast.Call):
+            d = dotted(n.func)
+            if d is None:
+                return f"call of a computed callable `{src(n.func)[:50]}`"
+            q = None
+            if d.startswith("self.") and d.count(".") == 1 and f.cls:
+                q = f"{f.cls}.{d.split('.')[1]}"
+            elif "." not in d:
+                q = d
+            if q is not None and q in f.module.funcs and q not in set(_baseline().get(f.module.name, {}).get("functions", [])):
+                return f"helper `{d}` could not be inlined"
+    return None
+
+
+def _order_of(it, is_base):
+    """'same' if expression `it` enumerates the base sequence in its own order, 'changed' if it reorders / filters /
+    deduplicates it, None if the rule cannot tell.  Second result: True if wrapped in enumerate()."""
+    enum = False
+    for _ in range(6):
+        if is_base(it):
+            return "same", enum
+        if isinstance(it, ast.Call) and not it.keywords and len(it.args) >= 1:
+            d = dotted(it.func)
+            if d in _ORDER_KEEPING and len(it.args) == 1:
+                it = it.args[0]
+                continue
+            if d == "enumerate":
+                enum, it = True, it.args[0]
+                continue
+        if isinstance(it, ast.Call) and dotted(it.func) in _ORDER_CHANGING:
+            return "changed", enum
+        if isinstance(it, ast.Subscript) and isinstance(it.slice, ast.Slice):
+            sl = it.slice
+            if sl.lower is None and sl.upper is None and sl.step is None:
+                it = it.value
+                continue
+            return "changed", enum
+        break
+    if any(isinstance(n, ast.Call) and dotted(n.func) in _ORDER_CHANGING for n in ast.walk(it)):
+        return "changed", enum
+    return None, enum
+
+
+# ============================================================================================ entry
 def run(ctx):
     rep = ctx.rep
     rep.explanation = (
         "Static analysis of beacon.py: Setting TLV layout parsed from CS_DEF (field order, widths, endianness of the "
-        "owning cstruct), resolution of the integer conversions in settings_map through functools.partial to "
-        "(size, byteorder, signed), per-view cache-slot and (index_type, pretty) agreement of the four cached views, "
-        "MappingProxyType exit and insertion order, CFG exit/yield analysis of iter_settings, index-36 tables and "
-        "guards, and the SETTING_* key vocabulary used across the package."
+        "owning cstruct); path-wise symbolic execution of settings_map (per scenario of view flags and record type: the "
+        "stored value is unpack(size, byteorder, signed) of the raw value resolved through functools.partial or "
+        "int.from_bytes, or the raw value; key per index_type; one insertion per setting in tuple order; "
+        "MappingProxyType exit), of the four cached views (cache slot, emptiness guard, settings_map arguments; helpers "
+        "entered with bound arguments), CFG exit/yield/terminator/seek-back analysis of iter_settings, index-36 and "
+        "User-Agent guards from dominating branch facts, and the SETTING_* key vocabulary used across the package."
     )
     rep.not_decided = ["the numeric values themselves", "alias-name choice for duplicated enum values (16/17/48)", "behaviour for arbitrary trailing bytes"]
     rep.trusted_base = ["CPython ast", "networkx dominators", "C-definition parser (csverif.cdefs)", "dissect.cstruct parses fields in declaration order"]
@@ -74,241 +656,681 @@ def r1(ctx):
            f"SettingsType = {st}")
 
 
+# ============================================================================================ R2 / R4: settings_map
+def _int_conv(ctx, f, w):
+    """(size, byteorder, signed, data term, known) if term w converts bytes to an int through utils.unpack (directly or
+    through a functools.partial of it) or int.from_bytes(data[:size], ...); None otherwise."""
+    if not isinstance(w, ast.Call):
+        return None
+    d = dotted(w.func)
+    if d is None:
+        return None
+
+    def cst(e, default):
+        if e is None:
+            return default, True
+        try:
+            return const_eval(e), True
+        except Exception:
+            return None, False
+
+    if d == "int.from_bytes":
+        kw = {k.arg: k.value for k in w.keywords if k.arg}
+        if any(k.arg is None for k in w.keywords) or any(isinstance(a, ast.Starred) for a in w.args) or not (w.args or "bytes" in kw):
+            return None
+        data = w.args[0] if w.args else kw["bytes"]
+        bo, k1 = cst(w.args[1] if len(w.args) > 1 else kw.get("byteorder"), "big")
+        sg, k2 = cst(kw.get("signed"), False)
+        size, k3 = None, True
+        if isinstance(data, ast.Subscript) and isinstance(data.slice, ast.Slice) and data.slice.step is None \
+                and (data.slice.lower is None or is_const(data.slice.lower, 0)) and data.slice.upper is not None:
+            size, k3 = cst(data.slice.upper, None)
+            data = data.value
+        return size, bo, bool(sg), data, k1 and k2 and k3
+    s = ctx.rs.lookup_dotted(f.module.name, d) if d.split(".")[0] not in ("self", "cls") else None
+    if s is None or s.kind not in ("func", "partial") or s.fq != "utils.unpack":
+        return None
+    fn = ctx.repo.func("utils.unpack").node
+    b = bind_args(w, fn)
+    pos = params(fn)
+    explicit = {k.arg for k in w.keywords if k.arg} | set(pos[: len(w.args)])
+    for k, v in (s.bound or {}).items():
+        if k not in explicit:
+            b[k] = v
+    if b.get("data") is None:
+        return None
+    size, k1 = cst(b.get("size"), None)
+    bo, k2 = cst(b.get("byteorder"), "little")
+    sg, k3 = cst(b.get("signed"), False)
+    return size, bo, bool(sg), b["data"], k1 and k2 and k3
+
+
+def _pretty_app(ctx, v):
+    """(argument term, lookup key term) if term v applies an entry of a module-level function table to one argument:
+    TABLE.get(k)(w) / TABLE[k](w)."""
+    consts = ctx.repo.module("beacon").consts
+
+    def table(e):
+        d = dotted(e)
+        return d is not None and "." not in d and isinstance(consts.get(d), ast.Dict)
+
+    if isinstance(v, ast.Call) and len(v.args) == 1 and not v.keywords and not isinstance(v.args[0], ast.Starred):
+        fn = v.func
+        if isinstance(fn, ast.Call) and isinstance(fn.func, ast.Attribute) and fn.func.attr == "get" and fn.args and table(fn.func.value):
+            return v.args[0], fn.args[0]
+        if isinstance(fn, ast.Subscript) and table(fn.value):
+            return v.args[0], fn.slice
+    return None
+
+
+def _entangled(facts, vocab, words):
+    """An atom of the path that talks about the scenario's subjects in a form the scenario vocabulary cannot express."""
+    pat = re.compile("|".join(r"(?<![\w.])" + re.escape(w) + r"(?![\w])" for w in words))
+    for k in facts:
+        if k in vocab or (k[0] == "eq" and (k[0], k[1]) in vocab):
+            continue
+        text = " ".join(str(x) for x in k[1:] if isinstance(x, str))
+        if pat.search(text):
+            return text
+    return None
+
+
 def r2_r4(ctx):
     f = ctx.repo.func("beacon.BeaconConfig.settings_map")
-    fv = FuncView.of(f.node)
-    cfg = ctx.cfg(f)
-    # loop over self.settings_tuple
-    loops = [s for s in statements(f.node) if isinstance(s, ast.For) and dotted(s.iter) == "self.settings_tuple"]
-    if len(loops) != 1:
-        ctx.ob("R4", "EXIT", f, "for setting in self.settings_tuple", False, f"expected one loop over self.settings_tuple (in stored order), found {len(loops)}: "
-               + ", ".join(src(s.iter) for s in statements(f.node) if isinstance(s, ast.For)), f.node)
-        return
-    loop = loops[0]
-    sv = dotted(loop.target)
-    # the one store into the result mapping inside the loop names the key and value variables
-    stores_ = [s2 for s2 in ast.walk(loop) if isinstance(s2, ast.Assign) and isinstance(s2.targets[0], ast.Subscript) and isinstance(s2.value, ast.Name) and isinstance(s2.targets[0].slice, ast.Name)]
-    if len(stores_) != 1:
-        ctx.ob("R4", "AGREE", f, "mapping store", False, f"expected one `<mapping>[<key>] = <value>` store in the loop, found {len(stores_)}", loop)
-        return
-    VAL, KEY = stores_[0].value.id, stores_[0].targets[0].slice.id
-    val_defs = assignments_to(f.node, VAL)
-    want = {"TYPE_SHORT": (2, "big", False), "TYPE_INT": (4, "big", False)}
-    seen = set()
-    for st, v in val_defs:
-        if v is None:
-            ctx.ob("R2", "AGREE", f, src(st), False, "val bound by a non-expression binding", st)
-            continue
-        if dotted(v) == f"{sv}.value":
-            continue  # initial raw value
-        if isinstance(v, ast.Call):
-            cal = ctx.rs.resolve_call(f, v)
-            if cal.kind == "func" and cal.func.fq == "utils.unpack":
-                size = _c(cal.bound.get("size")) if "size" in cal.bound else _c(kwarg(v, "size"))
-                bo = _c(cal.bound.get("byteorder")) if "byteorder" in cal.bound else (_c(kwarg(v, "byteorder")) or "little")
-                sg = _c(cal.bound.get("signed")) if "signed" in cal.bound else (_c(kwarg(v, "signed")) or False)
-                member = None
-                for m in want:
-                    if guarded_by(ctx, f, v, lambda t, m=m: True if _type_test(t, m) else None):
-                        member = m
-                arg_ok = v.args and dotted(v.args[0]) == VAL
-                ok = member is not None and want[member] == (size, bo, bool(sg)) and arg_ok
-                if member:
-                    seen.add(member)
-                pp = guarded_by(ctx, f, v, lambda t: True if {dotted(x) for x in (t.values if isinstance(t, ast.BoolOp) else [t])} >= {"parse"} else None)
-                ctx.ob("R2", "AGREE", f, src(st), ok and pp,
-                       f"under type=={member}: unpack(size={size}, byteorder={bo}, signed={sg}) of val; required {want.get(member)}; applied when parse/pretty={pp}", st)
-                # whether a SHORT/INT record is converted depends on the requested view and the record's type only,
-                # never on its value or length (a zero-length record is still an integer in every view)
-                dep = []
-                for _t, _pol, e in dominating_conditions(ctx, f, v):
-                    e = inline(f.node, e)
-                    for n in ast.walk(e):
-                        if isinstance(n, ast.Name) and n.id == VAL:
-                            dep.append(src(e))
-                        elif isinstance(n, ast.Attribute) and dotted(n.value) == sv and n.attr != "type":
-                            dep.append(src(e))
-                ctx.ob("R2", "DOM", f, src(st) + " unconditional in the value", not dep,
-                       "conversion is guarded by view flags and the record type only" if not dep else f"conversion also depends on the record's value/length: {sorted(set(dep))}", st)
-                continue
-            # pretty function application
-            if isinstance(origin(f.node, v.func), ast.Call) and "SETTING_TO_PRETTYFUNC" in src(origin(f.node, v.func)) and v.args and dotted(v.args[0]) == VAL:
-                pg = guarded_by(ctx, f, v, lambda t: True if dotted(t) == "pretty" else None)
-                ctx.ob("R2", "AGREE", f, src(st), pg, "pretty function applied only under `pretty`" if pg else "pretty function applied when pretty is off (raw views would differ)", st)
-                continue
-        ctx.ob("R2", "AGREE", f, src(st), False, f"unexpected conversion of the setting value: {src(v)} (pointer values must stay raw bytes)", st)
-    ctx.ob("R2", "AGREE", f, "int conversions present", seen == set(want), f"conversions found for {sorted(seen)}; required {sorted(want)}", f.node)
     dflt = param_defaults(f.node)
-    ctx.ob("R2", "AGREE", f, "parse default", is_const(dflt.get("parse"), True) and is_const(dflt.get("pretty"), False), f"defaults parse={src(dflt.get('parse'))} pretty={src(dflt.get('pretty'))}", f.node)
-    # key selection
-    key_defs = assignments_to(f.node, KEY)
-    kmap = {}
-    for st, v in key_defs:
-        for name in ("name", "const"):
-            if guarded_by(ctx, f, st, lambda t, name=name: True if any(isinstance(op, ast.Eq) and dotted(l) == "index_type" and is_const(r, name) for l, op, r in compare_parts(t)) else None):
-                kmap[name] = v
-                break
+    ctx.ob("R2", "AGREE", f, "parse default", is_const(dflt.get("parse"), True) and is_const(dflt.get("pretty"), False),
+           f"defaults parse={src(dflt.get('parse'))} pretty={src(dflt.get('pretty'))}", f.node)
+    try:
+        _settings_map(ctx, f)
+    except _Unmodelled as e:
+        ctx.undecided("R2", "AGREE", f, "per-setting conversion", f"settings_map contains a construct the path executor does not model: {e}", f.node)
+        ctx.undecided("R4", "AGREE", f, "one insertion per setting in tuple order", f"settings_map contains a construct the path executor does not model: {e}", f.node)
+    _settings_tuple(ctx)
+
+
+def _settings_map(ctx, f):
+    need = ("index_type", "pretty", "parse")
+    if any(p not in params(f.node) for p in need):
+        raise _Unmodelled(f"parameters {need} not all present")
+    ex = _Exec(ctx, f, capture_loops=True)
+    outs = ex.run(f.node.body, _St())
+    # ---------------------------------------------------------------- R4: exit
+    rets = [o for o in outs if o.done == "return"]
+    falls = [o for o in outs if o.done is None]
+    ctx.ob("R4", "EXIT", f, "falls off end", not falls, "cannot return None implicitly" if not falls else "a path reaches the end of settings_map without returning the mapping", f.node)
+    def fresh(a):
+        if isinstance(a, ast.Dict) and not a.keys:
+            return True
+        return isinstance(a, ast.Call) and not a.args and not a.keywords and _external(ctx, f, a.func) in ("collections.OrderedDict", "OrderedDict", "dict")
+
+    proxy, accs = _Agg(), []
+    for o in rets:
+        v = o.ret
+        if isinstance(v, ast.Call) and _external(ctx, f, v.func) in ("types.MappingProxyType", "MappingProxyType") and len(v.args) == 1 and not v.keywords:
+            proxy.add(True)
+            accs.append(v.args[0])
+        elif _opaque(ctx, f, v, set()):
+            proxy.add(None, f"returned value `{src(v)}`: {_opaque(ctx, f, v, set())}")
         else:
-            kmap["enum"] = v
-    def base(v):
-        if isinstance(v, ast.BoolOp):
-            v = v.values[0]
-        return dotted(v)
-    k_ok = base(kmap.get("name")) == f"{sv}.index.name" and base(kmap.get("const")) == f"{sv}.index.value" and base(kmap.get("enum")) == f"{sv}.index"
-    ctx.ob("R2", "AGREE", f, "key by index_type", k_ok, "name->index.name, const->index.value, otherwise the enum: " + str({k: src(v) for k, v in kmap.items()}), f.node)
-    # R4: mapping construction and exit
-    rets = cfg.return_stmts()
-    acc = None
-    for r in rets:
-        v = r.value
-        ok = isinstance(v, ast.Call) and dotted(v.func) in ("MappingProxyType", "types.MappingProxyType") and len(v.args) == 1
-        if ok:
-            acc = dotted(v.args[0])
-        ctx.ob("R4", "EXIT", f, "return " + src(v), ok, "returns a MappingProxyType (read-only view)" if ok else "returns a mutable mapping / something else", r)
-    ctx.ob("R4", "EXIT", f, "falls off end", not cfg.falls_off_end(), "cannot return None implicitly", f.node)
-    if acc:
-        defs = [v for st, v in assignments_to(f.node, acc)]
-        d_ok = len(defs) == 1 and isinstance(defs[0], ast.Call) and dotted(defs[0].func) in ("OrderedDict", "dict", "collections.OrderedDict") and not defs[0].args
-        stores = [s for s in ast.walk(loop) if isinstance(s, ast.Assign) and isinstance(s.targets[0], ast.Subscript) and dotted(s.targets[0].value) == acc]
-        s_ok = len(stores) == 1 and dotted(stores[0].targets[0].slice) == KEY and dotted(stores[0].value) == VAL
-        reorder = [src(c) for c in fn_calls(f.node) if (isinstance(c.func, ast.Attribute) and c.func.attr in ("sort", "reverse", "move_to_end", "popitem", "pop", "clear")) or dotted(c.func) in ("sorted", "reversed")]
-        ctx.ob("R4", "AGREE", f, "mapping[key] = val", d_ok and s_ok and not reorder,
-               f"fresh ordered mapping={d_ok}; one insertion per setting in iteration order={s_ok}; reordering calls={reorder}", loop)
+            proxy.add(False, f"returns `{src(v)}`, not a MappingProxyType (read-only view) of the mapping")
+            if fresh(v):
+                accs.append(v)  # the mutable mapping itself is returned: the per-setting obligations still apply to it
+    proxy.emit(ctx, "R4", "EXIT", f, "returns a read-only MappingProxyType", "every return wraps the mapping in MappingProxyType", f.node,
+               "no return statement found")
+    toks = {getattr(a, "_tok", None) for a in accs}
+    acc = accs[0] if accs and len(toks) == 1 and None not in toks else None
+
+    order = _Agg()
+    if acc is None:
+        order.add(None, "the returned mapping object cannot be identified")
+    elif not fresh(acc):
+        changed = any(isinstance(n, ast.Call) and dotted(n.func) in _ORDER_CHANGING for n in ast.walk(acc))
+        order.add(False if changed else None, f"the returned mapping is built as `{src(acc)}`" + (" (reordered)" if changed else " - not a fresh empty ordered mapping filled per setting"))
+    # ---------------------------------------------------------------- the per-setting loop
+    tok = getattr(acc, "_tok", None) if acc is not None else None
+    main = []
+    for loop, entry in ex.loops:
+        if not isinstance(loop, ast.For):
+            continue
+        paths = ex.run(loop.body, entry.fork())
+        if any(s[0] == "item" and getattr(s[1], "_tok", -1) == tok for p in paths for s in p.stores):
+            main.append((loop, entry, paths))
+    if acc is not None and fresh(acc) and len(main) != 1:
+        order.add(None, f"expected one loop that fills the returned mapping, found {len(main)}")
+    if order.bad or order.unk or len(main) != 1:
+        order.emit(ctx, "R4", "AGREE", f, "one insertion per setting in tuple order", "", f.node)
+        if not order.bad:
+            ctx.undecided("R2", "AGREE", f, "per-setting conversion", "the loop that fills the returned mapping cannot be located", f.node)
+        return
+    loop, entry, paths = main[0]
+    it = ex.term(loop.iter, entry)
+    how, enum = _order_of(it, lambda e: dotted(e) == "self.settings_tuple")
+    sv = None
+    if isinstance(loop.target, ast.Name) and not enum:
+        sv = loop.target.id
+    elif enum and isinstance(loop.target, ast.Tuple) and len(loop.target.elts) == 2 and isinstance(loop.target.elts[1], ast.Name):
+        sv = loop.target.elts[1].id
+    if how == "changed":
+        order.add(False, f"the loop iterates `{src(it)}`: not self.settings_tuple in stored order")
+    elif how is None or sv is None:
+        order.add(None, f"the loop iterates `{src(it)}` - cannot relate it to self.settings_tuple")
+    else:
+        order.add(True)
+    for o in outs:
+        for e in o.effects:
+            if isinstance(e, ast.Call) and isinstance(e.func, ast.Attribute) and e.func.attr in _REORDER_METHODS and getattr(e.func.value, "_tok", -1) == tok:
+                order.add(False, f"`{src(e)}` changes the order/content of the mapping outside the per-setting insertion")
+    locals_ = _assigned_in(f.node.body)[0] - set(params(f.node)) - ({sv} if sv else set())
+    judged = []
+    for p in paths:
+        if p.done == "raise":
+            continue
+        ins = [s for s in p.stores if s[0] == "item" and getattr(s[1], "_tok", -1) == tok]
+        for e in p.effects:
+            if isinstance(e, ast.Call) and isinstance(e.func, ast.Attribute) and e.func.attr in _REORDER_METHODS and getattr(e.func.value, "_tok", -1) == tok:
+                order.add(False, f"`{src(e)}` changes the order/content of the mapping outside the per-setting insertion")
+        if p.done in ("break", "return"):
+            order.add(False, "a path leaves the loop before all settings are inserted")
+        elif len(ins) == 0:
+            order.add(False, "a path through the loop body inserts nothing: a setting can be skipped")
+        elif len(ins) > 1:
+            order.add(False, "a path through the loop body inserts more than one entry for a setting")
+        else:
+            order.add(True)
+            judged.append((p, ins[0][2], ins[0][3]))
+    order.emit(ctx, "R4", "AGREE", f, "one insertion per setting in tuple order",
+               "fresh ordered mapping; every path through the loop over self.settings_tuple inserts exactly one entry; no reordering", loop)
+    if sv is None:
+        ctx.undecided("R2", "AGREE", f, "per-setting conversion", "the loop variable holding the setting cannot be identified", loop)
+        return
+    # ---------------------------------------------------------------- R2: value per scenario
+    T = lambda m: _expr(f"{sv}.type == SettingsType.{m}")  # noqa: E731
+    on = _expr("parse or pretty")
+    scen = [
+        ("SHORT", "TYPE_SHORT value decoded as unsigned 16-bit big-endian", [(on, True), (T("TYPE_SHORT"), True)], 2),
+        ("INT", "TYPE_INT value decoded as unsigned 32-bit big-endian", [(on, True), (T("TYPE_INT"), True)], 4),
+        ("OTHER", "values of non-integer types stay raw bytes", [(on, True), (T("TYPE_SHORT"), False), (T("TYPE_INT"), False)], None),
+        ("OFF", "raw bytes when parse and pretty are off", [(_expr("parse"), False), (_expr("pretty"), False)], None),
+    ]
+    vocab_v = {("t", "parse"), ("t", "pretty"), ("eq", f"{sv}.type")}
+    raw = f"{sv}.value"
+    aggs = {label: _Agg() for label, *_ in scen}
+    pretty_only = _Agg()
+    for p, _k, v in judged:
+        w = v
+        pa = _pretty_app(ctx, v)
+        if pa is not None:
+            w, pk = pa
+            if src(pk) != f"{sv}.index":
+                pretty_only.add(False, f"pretty function looked up by `{src(pk)}`, not by the setting's own index")
+            elif _consistent(ctx, p.facts, [(_expr("pretty"), False)]):
+                pretty_only.add(False, "a pretty function is applied on a path where `pretty` is off (raw views would differ)")
+            else:
+                pretty_only.add(True)
+        ent = _entangled(p.facts, vocab_v, ("parse", "pretty", f"{sv}.type"))
+        for label, _text, tests, size in scen:
+            if not _consistent(ctx, p.facts, tests):
+                continue
+            a = aggs[label]
+            if ent is not None:
+                a.add(None, f"the path is selected by `{ent}`, which the rule cannot relate to the view flags / record type")
+                continue
+            conv = _int_conv(ctx, f, w)
+            opq = _opaque(ctx, f, w, locals_)
+            if size is None:
+                if src(w) == raw:
+                    a.add(True)
+                elif conv is None and opq:
+                    a.add(None, f"stored value `{src(w)}`: {opq}")
+                else:
+                    a.add(False, f"stores `{src(w)}` instead of the raw `{raw}`" + (" (pointer/other values must stay raw bytes)" if label == "OTHER" else ""))
+            else:
+                if conv is not None:
+                    sz, bo, sg, data, known = conv
+                    if not known:
+                        a.add(None, f"conversion `{src(w)}` has non-constant size/byteorder/signed")
+                    elif (sz, bo, sg) == (size, "big", False) and src(data) == raw:
+                        a.add(True)
+                    else:
+                        a.add(False, f"`{src(w)}` = unpack(size={sz}, byteorder={bo}, signed={sg}) of `{src(data)}`; required (size={size}, big, unsigned) of `{raw}`")
+                elif src(w) == raw:
+                    a.add(False, f"a {label} record can stay unconverted (`{raw}` is stored) although parse/pretty is on: the conversion depends on more than the view flags and the record type")
+                elif opq:
+                    a.add(None, f"stored value `{src(w)}`: {opq}")
+                else:
+                    a.add(False, f"stores `{src(w)}`, not the unsigned {size * 8}-bit big-endian integer of `{raw}`")
+    for label, text, _tests, _size in scen:
+        aggs[label].emit(ctx, "R2", "AGREE", f, text, "holds on every path consistent with the case", loop)
+    if pretty_only.n:
+        pretty_only.emit(ctx, "R2", "AGREE", f, "pretty function only in pretty views", "pretty functions are looked up by the setting's index and applied only where `pretty` holds", loop)
+    else:
+        ctx.undecided("R2", "AGREE", f, "pretty function only in pretty views", "no application of a pretty-function table entry found", loop)
+    # ---------------------------------------------------------------- R2: key per index_type
+    N, C = _expr("index_type == 'name'"), _expr("index_type == 'const'")
+    kscen = [("name", [(N, True)], f"{sv}.index.name"), ("const", [(N, False), (C, True)], f"{sv}.index.value"), ("enum", [(N, False), (C, False)], f"{sv}.index")]
+    kagg = _Agg()
+    for p, k, _v in judged:
+        ent = _entangled(p.facts, {("eq", "index_type")}, ("index_type",))
+        for label, tests, wantk in kscen:
+            if not _consistent(ctx, p.facts, tests):
+                continue
+            if ent is not None:
+                kagg.add(None, f"the path is selected by `{ent}`, which the rule cannot relate to index_type")
+                continue
+            base, fallback = k, False
+            if isinstance(k, ast.BoolOp) and isinstance(k.op, ast.Or):
+                base, fallback = k.values[0], True
+            nm = f"{sv}.index.name"
+            if src(base) == wantk:
+                if label == "name" and not fallback and _lookup(p.facts, ("t", nm)) is not True and _lookup(p.facts, ("none", nm)) is not False:
+                    kagg.add(False, f"index_type=name: key `{src(k)}` has no synthetic fallback for unknown indices (their name is None)")
+                else:
+                    kagg.add(True)
+            elif label == "name" and (_lookup(p.facts, ("t", nm)) is False or _lookup(p.facts, ("none", nm)) is True):
+                kagg.add(True)  # the synthetic-name path of an unknown index
+            elif _opaque(ctx, f, k, locals_) or any(isinstance(n, ast.Call) for n in ast.walk(base)):
+                kagg.add(None, f"index_type={label}: key `{src(k)}` is not an attribute chain of the setting")
+            else:
+                kagg.add(False, f"index_type={label}: key is `{src(k)}`, required `{wantk}`")
+    kagg.emit(ctx, "R2", "AGREE", f, "key by index_type", "name->index.name (with fallback), const->index.value, otherwise the enum", loop)
+
+
+def _settings_tuple(ctx):
     init = ctx.repo.func("beacon.BeaconConfig.__init__")
-    ok = False
+    text = "self.settings_tuple = tuple(iter_settings(config_block))"
+    sites = []
     for st in statements(init.node):
-        tgt = st.targets[0] if isinstance(st, ast.Assign) else st.target if isinstance(st, ast.AnnAssign) else None
-        if tgt is not None and dotted(tgt) == "self.settings_tuple":
-            v = st.value
-            ok = isinstance(v, ast.Call) and dotted(v.func) == "tuple" and len(v.args) == 1 and isinstance(v.args[0], ast.Call) \
-                and ctx.rs.resolve_call(init, v.args[0]).fq == "beacon.iter_settings" and dotted(v.args[0].args[0]) == params(init.node)[1]
-    ctx.ob("R4", "AGREE", init, "self.settings_tuple = tuple(iter_settings(config_block))", ok, "settings tuple is the parser's output in order" if ok else "settings_tuple is not tuple(iter_settings(<config_block>))", init.node)
+        tgts = st.targets if isinstance(st, ast.Assign) else [st.target] if isinstance(st, ast.AnnAssign) and st.value is not None else []
+        if any(dotted(t) == "self.settings_tuple" for t in tgts):
+            sites.append(st)
+    if len(sites) != 1:
+        ctx.undecided("R4", "AGREE", init, text, f"expected one assignment of self.settings_tuple in __init__, found {len(sites)}", init.node)
+        return
+    v = inline(init.node, sites[0].value)
+
+    def is_parse(e):
+        if not isinstance(e, ast.Call):
+            return False
+        d = dotted(e.func)
+        s = ctx.rs.lookup_dotted(init.module.name, d) if d else None
+        return s is not None and s.kind == "func" and s.fq == "beacon.iter_settings"
+
+    calls = [n for n in ast.walk(v) if is_parse(n)]
+    if not calls:
+        ctx.undecided("R4", "AGREE", init, text, f"settings_tuple is built as `{src(v)}`: no call of iter_settings found", sites[0])
+        return
+    how, enum = _order_of(v, is_parse)
+    b = bind_args(calls[0], ctx.repo.func("beacon.iter_settings").node)
+    arg = next(iter(b.values()), None)
+    pinit = params(init.node)
+    arg_ok = arg is not None and len(pinit) > 1 and dotted(arg) == pinit[1]
+    is_tuple = isinstance(v, ast.Call) and dotted(v.func) == "tuple"
+    if how == "same" and not enum and is_tuple:
+        ctx.ob("R4", "AGREE", init, text, arg_ok, "settings tuple is the parser's output in order" if arg_ok else f"iter_settings is applied to `{src(arg)}`, not to the config block parameter", sites[0])
+    elif how == "changed":
+        ctx.ob("R4", "AGREE", init, text, False, f"settings_tuple = `{src(v)}` does not keep the parser's output order", sites[0])
+    else:
+        ctx.undecided("R4", "AGREE", init, text, f"settings_tuple = `{src(v)}`: cannot tell whether it is the parser's output in order", sites[0])
+
+
+# ============================================================================================ R3: cached views
+def _view(ctx, f, smap, itype, pretty):
+    """(verdict, detail, slot) for one cached view."""
+    ex = _Exec(ctx, f)
+    try:
+        outs = ex.run(f.node.body, _St())
+    except _Unmodelled as e:
+        return None, f"shape not modelled ({e})", None
+    paths = [o for o in outs if o.done != "raise"]
+
+    def sm_calls(o):
+        seen, out = set(), []
+        for t in [o.ret] + [s[-1] for s in o.stores] + list(o.effects):
+            if t is None:
+                continue
+            for n in ast.walk(t):
+                if isinstance(n, ast.Call) and dotted(n.func) == "self.settings_map":
+                    k = getattr(n, "_tok", None) or src(n)
+                    if k not in seen:
+                        seen.add(k)
+                        out.append(n)
+        return out
+
+    def same(a, b):
+        ta, tb = getattr(a, "_tok", None), getattr(b, "_tok", None)
+        return (ta is not None and ta == tb) or (ta is None and tb is None and src(a) == src(b))
+
+    fill = [(o, sm_calls(o)) for o in paths if sm_calls(o)]
+    hit = [o for o in paths if not sm_calls(o)]
+    if not fill:
+        return None, "no path calls self.settings_map: the view is computed in a way the rule does not model", None
+    if any(o.done is None for o in paths):
+        return False, "a path reaches the end of the property without returning the mapping", None
+    slots = set()
+    for o in hit:
+        d = dotted(o.ret)
+        if d and d.startswith("self."):
+            slots.add(d)
+        elif is_none(o.ret):
+            return False, "a path returns None instead of the mapping", None
+        else:
+            return None, f"a path returns `{src(o.ret)}` without calling settings_map: not modelled", None
+    for o, calls in fill:
+        for s in o.stores:
+            if s[0] == "attr" and s[1].startswith("self.") and any(same(s[2], c) for c in calls):
+                slots.add(s[1])
+    if len(slots) > 1:
+        return False, f"the view fills/returns different cache slots {sorted(slots)}", None
+    slot = next(iter(slots), None)
+    got = None
+    for o, calls in fill:
+        if len(calls) != 1:
+            return None, "a path calls settings_map more than once", slot
+        call = calls[0]
+        b = bind_args(call, smap.node, skip_self=True)
+        if any(b.get(k) is None for k in ("index_type", "pretty", "parse")):
+            return None, f"arguments of `{src(call)}` cannot be bound", slot
+        try:
+            got = (const_eval(b["index_type"]), bool(const_eval(b["pretty"])), bool(const_eval(b["parse"])))
+        except Exception:
+            return None, f"arguments of `{src(call)}` are not constants", slot
+        if got != (itype, pretty, True):
+            return False, f"settings_map(index_type, pretty, parse)={got}; required {(itype, pretty, True)}", slot
+        if not same(o.ret, call):
+            return False, f"the filling path returns `{src(o.ret)}`, not the mapping it just computed", slot
+        if slot is not None:
+            if not any(s[0] == "attr" and s[1] == slot and same(s[2], call) for s in o.stores):
+                return False, f"the computed mapping is not stored in {slot}", slot
+            empty = _lookup(o.facts, ("none", slot)) is True or _lookup(o.facts, ("t", slot)) is False
+            if not empty:
+                return False, f"{slot} is recomputed on a path that has not established `{slot} is None`", slot
+    for o in hit:
+        if _lookup(o.facts, ("none", slot)) is not False and _lookup(o.facts, ("t", slot)) is not True:
+            return False, f"a path returns {slot} without having established that it is filled", slot
+    if slot is None:
+        return None, f"settings_map(index_type, pretty, parse)={got} as required, but no cache slot could be located", None
+    return True, f"returns {slot}; filled only when `{slot} is None` with settings_map(index_type, pretty, parse)={got} required {(itype, pretty, True)}", slot
 
 
 def r3(ctx):
-    slots = {}
+    smap = ctx.repo.func("beacon.BeaconConfig.settings_map")
+    slots, unknown = {}, []
     for name, (itype, pretty) in VIEWS.items():
         f = ctx.repo.func(f"beacon.BeaconConfig.{name}")
-        cfg = ctx.cfg(f)
-        rets = cfg.return_stmts()
-        ret_slots = {dotted(r.value) for r in rets}
-        fills = [s for s in statements(f.node) if isinstance(s, ast.Assign) and (dotted(s.targets[0]) or "").startswith("self._")]
-        ok = False
-        detail = "shape not recognised: expected `if self._slot is None: self._slot = self.settings_map(...)` / `return self._slot`"
-        if len(ret_slots) == 1 and len(fills) == 1:
-            slot = ret_slots.pop()
-            fill = fills[0]
-            call = fill.value
-            same = dotted(fill.targets[0]) == slot
-            tested = guarded_by(ctx, f, fill, lambda t, slot=slot: True if any(isinstance(op, ast.Is) and dotted(l) == slot and isinstance(r, ast.Constant) and r.value is None for l, op, r in compare_parts(t)) else None)
-            args_ok = False
-            got = None
-            if isinstance(call, ast.Call) and dotted(call.func) == "self.settings_map":
-                it = kwarg(call, "index_type") if kwarg(call, "index_type") is not None else (call.args[0] if call.args else None)
-                pr = kwarg(call, "pretty") if kwarg(call, "pretty") is not None else (call.args[1] if len(call.args) > 1 else None)
-                pa = kwarg(call, "parse") if kwarg(call, "parse") is not None else (call.args[2] if len(call.args) > 2 else None)
-                got = (_c(it) if it is not None else "enum", bool(_c(pr)) if pr is not None else False)
-                args_ok = got == (itype, pretty) and (pa is None or _c(pa) is True)
-            ok = same and tested and args_ok
-            detail = f"returns {slot}; fills the same slot={same}; fill guarded by `{slot} is None`={tested}; settings_map(index_type,pretty)={got} required {(itype, pretty)}"
+        verdict, detail, slot = _view(ctx, f, smap, itype, pretty)
+        if slot is not None:
             slots[name] = slot
-        ctx.ob("R3", "AGREE", f, name, ok, detail, f.node)
+        else:
+            unknown.append(name)
+        if verdict is None:
+            ctx.undecided("R3", "AGREE", f, name, detail, f.node)
+        else:
+            ctx.ob("R3", "AGREE", f, name, verdict, detail, f.node)
     dup = len(set(slots.values())) != len(slots)
-    ctx.ob("R3", "AGREE", "beacon.py::BeaconConfig", "cache slots distinct", not dup and len(slots) == 4, f"cache slots per view: {slots}")
+    if dup or not unknown:
+        ctx.ob("R3", "AGREE", "beacon.py::BeaconConfig", "cache slots distinct", not dup, f"cache slots per view: {slots}")
+    else:
+        ctx.undecided("R3", "AGREE", "beacon.py::BeaconConfig", "cache slots distinct", f"cache slots located: {slots}; not located for {unknown}")
     # the cache slots start empty
     init = ctx.repo.func("beacon.BeaconConfig.__init__")
-    inits = {dotted(s.target if isinstance(s, ast.AnnAssign) else s.targets[0]): s.value for s in statements(init.node) if isinstance(s, (ast.Assign, ast.AnnAssign))}
-    ok = all(sl in inits and isinstance(inits[sl], ast.Constant) and inits[sl].value is None for sl in slots.values())
-    ctx.ob("R3", "AGREE", init, "cache slots initialised to None", ok, f"slots {sorted(slots.values())} start as None={ok}", init.node)
+    inits = {}
+    for s in statements(init.node):
+        tgts = s.targets if isinstance(s, ast.Assign) else [s.target] if isinstance(s, ast.AnnAssign) and s.value is not None else []
+        for t in tgts:
+            if dotted(t):
+                inits.setdefault(dotted(t), []).append(inline(init.node, s.value))
+    cattrs = ctx.repo.class_attrs("beacon.BeaconConfig")
+    bad, missing = [], []
+    for sl in sorted(set(slots.values())):
+        vals = list(inits.get(sl, []))
+        if not vals and sl.split(".", 1)[1] in cattrs:
+            vals = [cattrs[sl.split(".", 1)[1]]]
+        if not vals:
+            missing.append(sl)
+        elif not all(is_none(v) for v in vals):
+            bad.append(sl)
+    text = "cache slots initialised to None"
+    if bad:
+        ctx.ob("R3", "AGREE", init, text, False, f"slots {bad} do not start as None", init.node)
+    elif missing or not slots:
+        ctx.undecided("R3", "AGREE", init, text, f"no initialisation found for {missing or 'any slot'}", init.node)
+    else:
+        ctx.ob("R3", "AGREE", init, text, True, f"slots {sorted(set(slots.values()))} start as None", init.node)
+
+
+# ============================================================================================ R5 / R6: iter_settings
+def _peek2(e):
+    """(stream dotted name, consuming) if e is a 2-byte look at a stream: s.read(2) / s.read(2)[:2] / s.peek(2)[:2]."""
+    if isinstance(e, ast.Subscript) and isinstance(e.slice, ast.Slice) and e.slice.step is None and (e.slice.lower is None or is_const(e.slice.lower, 0)):
+        if _c(e.slice.upper) != 2:
+            return None
+        e = e.value
+    if isinstance(e, ast.Call) and isinstance(e.func, ast.Attribute) and e.func.attr in ("read", "peek") and len(e.args) == 1 and not e.keywords \
+            and _c(e.args[0]) == 2 and dotted(e.func.value):
+        return dotted(e.func.value), e.func.attr == "read"
+    return None
 
 
 def r5_r6(ctx):
     f = ctx.repo.func("beacon.iter_settings")
     cfg = ctx.cfg(f)
     fv = FuncView.of(f.node)
-    fobj = params(f.node)[0]
-    parses = calls_to(ctx, f, target_fq=None, attr=None)
     parses = [c for c in fn_calls(f.node) if ctx.rs.resolve_call(f, c).kind == "struct" and ctx.rs.resolve_call(f, c).struct[2] == "Setting"]
     yields = [n for n in body_walk(f.node) if isinstance(n, (ast.Yield, ast.YieldFrom))]
-    if len(parses) != 1 or len(yields) != 1:
-        ctx.ob("R5", "LOOP", f, "parse/yield", False, f"expected one Setting(...) parse and one yield, found {len(parses)}/{len(yields)}", f.node)
+    if len(parses) != 1 or not yields:
+        ctx.undecided("R5", "LOOP", f, "parse/yield", f"expected one Setting(...) struct parse and at least one yield, found {len(parses)}/{len(yields)}: a different algorithm", f.node)
+        _r6_tables(ctx)
         return
-    parse, y = parses[0], yields[0]
-    loop = fv.enclosing(parse, (ast.While,))
-    if loop is None:
-        ctx.ob("R5", "LOOP", f, "main loop", False, "Setting(...) parse is not inside a while loop", parse)
+    parse = parses[0]
+    loop = fv.enclosing(parse, (ast.While, ast.For))
+    pst = fv.stmt_of(parse)
+    if loop is None or not cfg.has(pst):
+        ctx.undecided("R5", "LOOP", f, "main loop", "the Setting(...) parse is not inside a loop: a different algorithm", parse)
+        _r6_tables(ctx)
         return
     header = cfg.node(loop)
-    pst, yst = fv.stmt_of(parse), fv.stmt_of(y)
-    sname = dotted(pst.targets[0]) if isinstance(pst, ast.Assign) else None
-    ok = dotted(y.value) == sname and cfg.all_paths_pass(cfg.node(pst), header, [cfg.node(yst)]) and not cfg.reaches(cfg.node(yst), cfg.node(yst), avoiding=[header])
-    ctx.ob("R5", "LOOP", f, "yield setting", ok, "every parsed setting is yielded exactly once before the next iteration" if ok else
-           "a parsed setting can be skipped or yielded twice: " + " -> ".join(cfg.witness_path(cfg.node(pst), header, avoiding=[cfg.node(yst)])), y)
-    # terminator: 2-byte peek compared with 00 00 leads out of the loop without parsing
-    peeks = [s for s in ast.walk(loop) if isinstance(s, ast.Assign) and isinstance(s.value, (ast.Subscript, ast.Call)) and "read(2)" in src(s.value).replace(" ", "") or (isinstance(s, ast.Assign) and "peek(2)" in src(s.value))]
-    term_ok = False
-    detail = "no `== b'\\x00\\x00'` terminator test on a 2-byte peek"
-    for st in [s for s in ast.walk(loop) if isinstance(s, ast.If)]:
-        for l, op, r in compare_parts(st.test):
-            if isinstance(op, ast.Eq) and (is_const(r, b"\x00\x00") or is_const(l, b"\x00\x00")):
-                var = dotted(l) if is_const(r, b"\x00\x00") else dotted(r)
-                pk = [p for p in peeks if dotted(p.targets[0]) == var]
-                t = cfg.edge_node(st, "true")
-                leaves = not cfg.reaches(t, header) and not cfg.reaches(t, cfg.node(pst))
-                term_ok = bool(pk) and leaves and cfg.dominates(cfg.node(st), cfg.node(pst))
-                detail = f"terminator test on {var} (2-byte peek={bool(pk)}); true edge leaves the loop without parsing={leaves}; test dominates the parse={cfg.dominates(cfg.node(st), cfg.node(pst))}"
-    ctx.ob("R5", "LOOP", f, "00 00 terminator", term_ok, detail, loop)
-    # EOF: the parse sits in a try whose EOFError handler leaves the loop
-    tr = fv.enclosing(parse, (ast.Try,))
+    pn = cfg.node(pst)
+    sname = dotted(pst.targets[0]) if isinstance(pst, ast.Assign) and len(pst.targets) == 1 and isinstance(pst.targets[0], ast.Name) else None
+    in_loop = lambda st: st is loop or loop in fv.ancestors(st)  # noqa: E731
+    # ---- every parsed setting is yielded exactly once
+    ys = []
+    for y in yields:
+        yst = fv.stmt_of(y)
+        if isinstance(y, ast.Yield) and y.value is not None and sname is not None and dotted(y.value) == sname and cfg.has(yst):
+            ys.append(cfg.node(yst))
+    if sname is None or len(ys) != len(yields):
+        ctx.undecided("R5", "LOOP", f, "yield setting", "the parsed setting is not bound to a local that is yielded as such: not modelled", parse)
+    else:
+        skipped = cfg.reaches(pn, header, avoiding=ys)
+        twice = any(cfg.reaches(a, b, avoiding=[header, pn]) for a in ys for b in ys)
+        ctx.ob("R5", "LOOP", f, "yield setting", not skipped and not twice,
+               "every parsed setting is yielded exactly once before the next iteration" if not skipped and not twice else
+               ("a parsed setting can be skipped: " + " -> ".join(cfg.witness_path(pn, header, avoiding=ys)) if skipped else "a parsed setting can be yielded twice"), yields[0])
+    # ---- terminator: a 2-byte peek compared with 00 00 leads out of the loop without parsing
+    term = []  # (stmt, edge on which the peek equals 00 00, stream, consuming, peek stmt)
+    entangled = False
+    for st in [s for s in ast.walk(loop) if isinstance(s, (ast.If, ast.While))]:
+        t, neg = st.test, False
+        while isinstance(t, ast.UnaryOp) and isinstance(t.op, ast.Not):
+            t, neg = t.operand, not neg
+        for n in ast.walk(st.test):
+            if not (isinstance(n, ast.Compare) and len(n.ops) == 1 and isinstance(n.ops[0], (ast.Eq, ast.NotEq))):
+                continue
+            l, r = n.left, n.comparators[0]
+            if not (is_const(r, b"\x00\x00") or is_const(l, b"\x00\x00")):
+                continue
+            other = origin(f.node, l if is_const(r, b"\x00\x00") else r)
+            pk = _peek2(other)
+            if pk is None:
+                continue
+            ost = fv.stmt_of(other)
+            if ost is None or not in_loop(ost):
+                continue
+            if n is not t:
+                entangled = True
+                continue
+            eq_true = isinstance(n.ops[0], ast.Eq) != neg
+            term.append((st, "true" if eq_true else "false", pk[0], pk[1], ost))
+    text = "00 00 terminator"
+    if len(term) != 1:
+        stream = consuming = peek_st = None
+        # necessary for any zero-index terminator: the loop can be left other than through an exception handler
+        exits = [loop] if not (isinstance(loop, ast.While) and isinstance(loop.test, ast.Constant) and bool(loop.test.value)) else []
+        for s in ast.walk(loop):
+            if isinstance(s, ast.Return) or (isinstance(s, ast.Break) and fv.enclosing(s, (ast.While, ast.For)) is loop):
+                if not any(isinstance(a, ast.ExceptHandler) for a in fv.ancestors(s)):
+                    exits.append(s)
+        if not term and not entangled and not exits:
+            ctx.ob("R5", "LOOP", f, text, False, "the parse loop can only be left through an exception handler (end of data): a zero index no longer terminates the settings", loop)
+        else:
+            ctx.undecided("R5", "LOOP", f, text, ("the 00 00 test is combined with other conditions" if entangled else f"found {len(term)} tests of a 2-byte peek against b'\\x00\\x00'") + ": cannot locate the terminator test", loop)
+    else:
+        tst, edge, stream, consuming, peek_st = term[0]
+        e = cfg.edge_node(tst, edge)
+        leaves = not cfg.reaches(e, header) and not cfg.reaches(e, pn)
+        dom = cfg.dominates(cfg.node(tst), pn)
+        ctx.ob("R5", "LOOP", f, text, leaves and dom,
+               f"terminator test on a 2-byte peek of {stream}; the 00 00 edge leaves the loop without parsing={leaves}; the test dominates the parse={dom}", tst)
+    # ---- EOF: the parse sits in a try whose EOFError handler leaves the loop
+    # (the innermost try - inside or around the loop - whose body holds the parse and that catches EOFError decides)
     eof_ok = False
-    if tr is not None:
+    for tr in [a for a in fv.ancestors(parse) if isinstance(a, ast.Try)]:
+        if not any(parse in list(ast.walk(s)) for s in tr.body):
+            continue
+        hs = []
         for h in tr.handlers:
             names = [dotted(h.type)] if h.type is not None and not isinstance(h.type, ast.Tuple) else [dotted(e) for e in (h.type.elts if h.type else [])]
-            if "EOFError" in names or h.type is None or "Exception" in names:
-                hn = cfg.node(h)
-                eof_ok = not cfg.reaches(hn, header)
-    ctx.ob("R5", "LOOP", f, "except EOFError", eof_ok, "EOFError from the struct parse ends the iteration" if eof_ok else "EOFError from Setting(fobj) is not caught with a loop exit", parse)
-    # re-read from the peeked position
-    seeks = [c for c in ast.walk(loop) if isinstance(c, ast.Call) and isinstance(c.func, ast.Attribute) and c.func.attr == "seek" and dotted(c.func.value) == fobj]
-    back = [c for c in seeks if len(c.args) == 2 and _c(c.args[0]) == -2 and (dotted(c.args[1]) in ("io.SEEK_CUR", "os.SEEK_CUR", "SEEK_CUR") or _c(c.args[1]) == 1)]
-    rr_ok = bool(back) and cfg.dominates(cfg.node(fv.stmt_of(back[0])), cfg.node(pst))
-    between = False
-    if rr_ok:
-        for c in ast.walk(loop):
-            if isinstance(c, ast.Call) and isinstance(c.func, ast.Attribute) and c.func.attr == "read" and dotted(c.func.value) == fobj:
-                cst = fv.stmt_of(c)
-                if cfg.reaches(cfg.node(fv.stmt_of(back[0])), cfg.node(cst), avoiding=[cfg.node(pst), header]) and cst is not pst and cfg.reaches(cfg.node(cst), cfg.node(pst), avoiding=[header]):
-                    between = True
-    ctx.ob("R5", "CURSOR", f, "seek(-2, SEEK_CUR) before parse", rr_ok and not between, "the peeked 2 bytes are given back before the struct parse" if rr_ok and not between else "struct parse does not start at the peeked position", parse)
-    arg_ok = parse.args and dotted(parse.args[0]) == fobj
-    ctx.ob("R5", "AGREE", f, src(parse), bool(arg_ok), "Setting parsed from the stream itself", parse)
+            if h.type is None or any(n in ("EOFError", "Exception", "BaseException") for n in names):
+                hs.append(h)
+        if hs:
+            eof_ok = cfg.has(hs[0]) and not cfg.reaches(cfg.node(hs[0]), header)
+            break
+    ctx.ob("R5", "LOOP", f, "except EOFError", eof_ok, "EOFError from the struct parse ends the iteration" if eof_ok else "EOFError from the Setting(...) parse is not caught with a loop exit", parse)
+    # ---- re-read from the peeked position
+    text = "seek(-2, SEEK_CUR) before parse"
+    if stream is None:
+        ctx.undecided("R5", "CURSOR", f, text, "no located 2-byte peek to give back", parse)
+    elif not consuming:
+        ctx.ob("R5", "CURSOR", f, text, True, "the look-ahead uses peek(): nothing is consumed before the struct parse", parse)
+    else:
+        pkn = cfg.node(peek_st)
+        good, bad, unk = [], [], []
+        for c in [c for c in ast.walk(loop) if isinstance(c, ast.Call) and isinstance(c.func, ast.Attribute) and c.func.attr == "seek" and dotted(c.func.value) == stream]:
+            cst = fv.stmt_of(c)
+            if not cfg.has(cst) or not (cfg.reaches(pkn, cfg.node(cst), avoiding=[header, pn]) or pkn == cfg.node(cst)) or not cfg.reaches(cfg.node(cst), pn, avoiding=[header]):
+                continue
+            b = {"offset": c.args[0] if c.args else None, "whence": c.args[1] if len(c.args) > 1 else None}
+            for k in c.keywords:
+                if k.arg in b:
+                    b[k.arg] = k.value
+            off = inline(f.node, b["offset"]) if b["offset"] is not None else None
+            wh = b["whence"]
+            cur = wh is not None and (dotted(wh) in ("io.SEEK_CUR", "os.SEEK_CUR", "SEEK_CUR") or _c(wh) == 1)
+            absolute = wh is None or dotted(wh) in ("io.SEEK_SET", "os.SEEK_SET", "SEEK_SET") or (isinstance(wh, ast.Constant) and wh.value == 0)
+            o0 = origin(f.node, b["offset"]) if b["offset"] is not None else None
+            if cur and isinstance(_c(off), int):
+                (good if _c(off) == -2 else bad).append((c, cst))
+            elif absolute and isinstance(o0, ast.Call) and isinstance(o0.func, ast.Attribute) and o0.func.attr == "tell" and dotted(o0.func.value) == stream \
+                    and fv.stmt_of(o0) is not None and in_loop(fv.stmt_of(o0)) and cfg.has(fv.stmt_of(o0)) and cfg.node(fv.stmt_of(o0)) != pkn:
+                # the position saved by tell(): the peeked position iff it is taken before the peek in the same iteration
+                tn = cfg.node(fv.stmt_of(o0))
+                if cfg.dominates(tn, pkn):
+                    good.append((c, cst))
+                elif cfg.dominates(pkn, tn):
+                    bad.append((c, cst))
+                else:
+                    unk.append((c, cst))
+            else:
+                unk.append((c, cst))
+        if bad:
+            ctx.ob("R5", "CURSOR", f, text, False, f"`{src(bad[0][0])}` between the 2-byte peek and the struct parse does not give back exactly the 2 peeked bytes", bad[0][0])
+        elif unk:
+            ctx.undecided("R5", "CURSOR", f, text, f"`{src(unk[0][0])}` between the peek and the parse: target position not understood", unk[0][0])
+        elif not good:
+            ctx.ob("R5", "CURSOR", f, text, False, "the struct parse does not start at the peeked position: the 2 peeked bytes are never given back", parse)
+        else:
+            back = good[0][1]
+            dom = all(cfg.dominates(cfg.node(g[1]), pn) for g in good[:1])
+            between = False
+            for c in ast.walk(loop):
+                if isinstance(c, ast.Call) and isinstance(c.func, ast.Attribute) and c.func.attr in ("read", "seek", "readline", "readinto") and dotted(c.func.value) == stream:
+                    cst = fv.stmt_of(c)
+                    if cst is pst or cst is back or not cfg.has(cst):
+                        continue
+                    if cfg.reaches(cfg.node(back), cfg.node(cst), avoiding=[pn, header]) and cfg.reaches(cfg.node(cst), pn, avoiding=[header]):
+                        between = True
+            ctx.ob("R5", "CURSOR", f, text, dom and not between, "the peeked 2 bytes are given back before the struct parse" if dom and not between else
+                   "the struct parse does not start at the peeked position (give-back not on every path / other stream access in between)", parse)
+    if stream is not None:
+        arg = parse.args[0] if parse.args and not isinstance(parse.args[0], ast.Starred) else None
+        ctx.ob("R5", "AGREE", f, "Setting parsed from the stream itself", arg is not None and dotted(arg) == stream,
+               f"the struct parse reads `{src(arg)}`; the peeked stream is `{stream}`", parse)
+    else:
+        ctx.undecided("R5", "AGREE", f, "Setting parsed from the stream itself", "no located 2-byte peek to compare the parse argument with", parse)
     # ---- R6
+    bs, dep = _r6_tables(ctx)
+    if sname is None:
+        ctx.undecided("R6", "DOM", f, "index 36 named by its type", "the parsed setting is not bound to a local", parse)
+        ctx.undecided("R6", "DOM", f, "User-Agent continuation", "the parsed setting is not bound to a local", parse)
+        return
+    stop = frozenset([sname])
+    base_funcs = set(_baseline().get(f.module.name, {}).get("functions", []))
+    new_helpers = [dotted(c.func) for c in fn_calls(f.node) if dotted(c.func) in f.module.funcs and dotted(c.func) not in base_funcs]
+    # an edge case handled "elsewhere": the member is still mentioned, or a helper the normaliser could not inline is called
+    mentions = lambda name: bool(new_helpers) or any(isinstance(n, ast.Attribute) and n.attr == name for n in ast.walk(f.node))  # noqa: E731
+    # index 36: renamed to the deprecated INJECT_OPTIONS exactly under index == 36 and type == TYPE_SHORT
+    ren = [s for s in ast.walk(loop) if isinstance(s, (ast.Assign, ast.AnnAssign)) and s.value is not None
+           and any(dotted(t) == f"{sname}.index" for t in (s.targets if isinstance(s, ast.Assign) else [s.target]))]
+    text = "index 36 named by its type"
+    st_short = _enums(ctx).get("SettingsType", {}).get("TYPE_SHORT")
+    if not ren:
+        if mentions("SETTING_INJECT_OPTIONS"):
+            ctx.undecided("R6", "DOM", f, text, f"no assignment to {sname}.index found although SETTING_INJECT_OPTIONS is mentioned / a helper is called ({new_helpers}): not modelled", loop)
+        else:
+            ctx.ob("R6", "DOM", f, text, False, "an index-36 record of TYPE_SHORT is no longer renamed to DeprecatedBeaconSetting.SETTING_INJECT_OPTIONS", loop)
+    else:
+        agg = _Agg()
+        for s in ren:
+            v = inline(f.node, s.value, stop=stop)
+            facts = _facts_at(ctx, f, s, stop)
+            if dotted(v) != "DeprecatedBeaconSetting.SETTING_INJECT_OPTIONS":
+                agg.add(None if _cv(ctx, v) is None else False, f"{sname}.index is set to `{src(v)}`")
+                continue
+            g1 = facts.get(("eq", f"{sname}.index", ("int", 36))) is True
+            g2 = st_short is not None and facts.get(("eq", f"{sname}.type", ("int", st_short))) is True
+            agg.add(g1 and g2, f"rename to INJECT_OPTIONS guarded by index==WATERMARKHASH(36)={g1}, type==TYPE_SHORT={g2} (must hold for exactly these records)")
+        agg.emit(ctx, "R6", "DOM", f, text, "index 36 is renamed to INJECT_OPTIONS only under index==WATERMARKHASH and type==TYPE_SHORT", loop)
+    # over-long User-Agent: the value is extended only for index == USERAGENT and length == 0x80
+    ext = []
+    for s in ast.walk(loop):
+        if isinstance(s, ast.AugAssign) and dotted(s.target) == f"{sname}.value":
+            ext.append(s)
+        elif isinstance(s, ast.Assign) and any(dotted(t) == f"{sname}.value" for t in s.targets):
+            ext.append(s)
+    text = "User-Agent continuation"
+    if not ext:
+        if mentions("SETTING_USERAGENT"):
+            ctx.undecided("R6", "DOM", f, text, f"no extension of {sname}.value found although SETTING_USERAGENT is mentioned / a helper is called ({new_helpers}): not modelled", loop)
+        else:
+            ctx.ob("R6", "DOM", f, text, False, "the over-long User-Agent is no longer continued to its NUL", loop)
+    else:
+        agg = _Agg()
+        for s in ext:
+            facts = _facts_at(ctx, f, s, stop)
+            g1 = facts.get(("eq", f"{sname}.index", ("int", bs.get("SETTING_USERAGENT")))) is True
+            g2 = facts.get(("eq", f"{sname}.length", ("int", 0x80))) is True
+            agg.add(g1 and g2, f"extension of {sname}.value guarded by index==USERAGENT={g1}, length==0x80={g2}")
+        agg.emit(ctx, "R6", "DOM", f, text, f"{sname}.value is extended only under index==USERAGENT and length==0x80 ({len(ext)} site(s))", loop)
+        ctx.rep.count("iter_settings_value_extensions", len(ext), floor=1)
+
+
+def _r6_tables(ctx):
     cd = ctx.cdefs("beacon")["cs_struct"]
     bs, dep = cd.enum("BeaconSetting").by_name(), cd.enum("DeprecatedBeaconSetting").by_name()
     ctx.ob("R6", "TABLE", "beacon.py::CS_DEF", "index 36", bs.get("SETTING_WATERMARKHASH") == 36 and dep.get("SETTING_INJECT_OPTIONS") == 36,
            f"SETTING_WATERMARKHASH={bs.get('SETTING_WATERMARKHASH')} SETTING_INJECT_OPTIONS={dep.get('SETTING_INJECT_OPTIONS')} (both 36)")
     ctx.ob("R6", "TABLE", "beacon.py::CS_DEF", "user agent index", bs.get("SETTING_USERAGENT") == 9, f"SETTING_USERAGENT={bs.get('SETTING_USERAGENT')}")
-
-    def idx_is(member):
-        def p(t):
-            for l, op, r in compare_parts(t):
-                if isinstance(op, ast.Eq) and {dotted(l), dotted(r)} == {f"{sname}.index", f"BeaconSetting.{member}"}:
-                    return True
-            return None
-        return p
-
-    ren = [s for s in ast.walk(loop) if isinstance(s, ast.Assign) and dotted(s.targets[0]) == f"{sname}.index"]
-    r_ok = len(ren) == 1 and dotted(ren[0].value) == "DeprecatedBeaconSetting.SETTING_INJECT_OPTIONS" and guarded_by(ctx, f, ren[0], idx_is("SETTING_WATERMARKHASH")) \
-        and guarded_by(ctx, f, ren[0], lambda t: True if _type_test(t, "TYPE_SHORT") else None)
-    ctx.ob("R6", "DOM", f, f"{sname}.index = DeprecatedBeaconSetting.SETTING_INJECT_OPTIONS", r_ok,
-           "index 36 is renamed to INJECT_OPTIONS only under index==WATERMARKHASH and type==TYPE_SHORT" if r_ok else f"rename sites={[src(s) for s in ren]} not guarded by index==WATERMARKHASH and type==TYPE_SHORT", loop)
-    inner = [w for w in ast.walk(loop) if isinstance(w, ast.While) and w is not loop]
-    for w in inner:
-        g1 = guarded_by(ctx, f, w, idx_is("SETTING_USERAGENT"))
-        g2 = guarded_by(ctx, f, w, lambda t: True if any(isinstance(op, ast.Eq) and dotted(l) == f"{sname}.length" and _c(r) == 0x80 for l, op, r in compare_parts(t)) else None)
-        ext = [s for s in ast.walk(w) if isinstance(s, ast.AugAssign) and dotted(s.target) == f"{sname}.value" and isinstance(s.op, ast.Add)]
-        ctx.ob("R6", "DOM", f, "User-Agent continuation", g1 and g2 and bool(ext), f"continuation loop guarded by index==USERAGENT={g1}, length==0x80={g2}; extends {sname}.value={bool(ext)}", w)
-    ctx.rep.count("iter_settings_inner_loops", len(inner), floor=1)
+    return bs, dep
 
 
 def r7(ctx):
